@@ -637,3 +637,178 @@ theorem annotation_torn_witness :
   decide
 
 end Pharmpy.C16
+
+namespace Pharmpy.C16
+
+/-! ### Fidelity of a completed store -/
+
+/-- **A completed store is retrievable and faithful** (first store of a key
+    whose dataset is not yet in the database, on any file system): the reader
+    obtains the model text, the dataset, the datainfo and the results that
+    were stored. -/
+theorem committed_faithful (m : MDesc) (fs : FS)
+    (hext : m.ext = "ctl" ∨ m.ext = "mod") (hk : m.key ≠ ".datasets")
+    (hP : pexists fs (pendingPath m.key) = false)
+    (hM1 : isFile fs (modelPath m.key "mod") = false) (hM2 : isFile fs (modelPath m.key "ctl") = false)
+    (hH : isDir fs (hashDir m.dh) = false)
+    (hR : m.res = none → get fs (resultsPath m.key) = none) :
+    (dbStoreEntry m fs).2 = .ok () ∧
+    (dbRetrieve m.key (applyAll fs (dbStoreEntry m fs).1)).2 = .ok m.entry := by
+  have hp1 : pexists (applyAll fs (openKey m.key fs)) (pendingPath m.key) = false := by
+    simp only [pexists, get_openKey_of (pending_not_openKey m.key m.key)] at hP ⊢; exact hP
+  generalize hfsB : apply (applyAll fs (openKey m.key fs)) (.create (pendingPath m.key)) = fsB
+  have hgB : ∀ p, p ≠ keyDir m.key → p ≠ metaDir m.key → p ≠ lockPath → p ≠ pendingPath m.key →
+      get fsB p = get fs p := by
+    intro p a1 a2 a3 a4
+    rw [← hfsB, get_apply_ne (by simpa [Op.path] using fun h => a4 h.symm), get_openKey_of ⟨a1, a2, a3⟩]
+  have hMB : isFile fsB (modelPath m.key m.ext) = false := by
+    have h1 : get fsB (modelPath m.key "mod") = get fs (modelPath m.key "mod") := by
+      apply hgB <;> simp [modelPath, keyDir, metaDir, lockPath, pendingPath, dbRoot]
+    have h2 : get fsB (modelPath m.key "ctl") = get fs (modelPath m.key "ctl") := by
+      apply hgB <;> simp [modelPath, keyDir, metaDir, lockPath, pendingPath, dbRoot]
+    rcases hext with h | h
+    · rw [h]; simp only [isFile, h2]; exact hM2
+    · rw [h]; simp only [isFile, h1]; exact hM1
+  have hHB : isDir fsB (hashDir m.dh) = false := by
+    have : get fsB (hashDir m.dh) = get fs (hashDir m.dh) := by
+      apply hgB <;> first
+        | (simp [hashDir, datasetsDir, keyDir, metaDir, lockPath, pendingPath, dbRoot]; done)
+        | (simp [hashDir, datasetsDir, keyDir, metaDir, lockPath, pendingPath, dbRoot]
+           intro h; exact absurd h.symm hk)
+    simp only [isDir, this]; exact hH
+  -- the body
+  generalize hN : highest fsB + 1 = N
+  have hsm : storeModel m fsB = storeFresh m fsB := by simp [storeModel, hMB, hHB]
+  have hbody : storeEntryBody m fsB =
+      ((storeFresh m fsB).1 ++ (match m.res with
+        | none => []
+        | some r => [.create (resultsPath m.key), .write (resultsPath m.key) (.full (.results r))]), .ok ()) := by
+    simp only [storeEntryBody, Prog.andThen, hsm, storeFresh, storeResults]
+    cases m.res <;> simp
+  have hrun : dbStoreEntry m fs = (openKey m.key fs ++ .create (pendingPath m.key) ::
+      ((storeFresh m fsB).1 ++ (match m.res with
+        | none => []
+        | some r => [.create (resultsPath m.key), .write (resultsPath m.key) (.full (.results r))]))
+      ++ [.unlink (pendingPath m.key)], .ok ()) := by
+    simp only [dbStoreEntry, txn, hp1, Bool.false_eq_true, if_false, hfsB, hbody]
+  refine ⟨by rw [hrun], ?_⟩
+  rw [hrun, dbRetrieve_result]
+  simp only
+  -- the final state, path by path
+  generalize hF : applyAll fs (openKey m.key fs ++ .create (pendingPath m.key) ::
+      ((storeFresh m fsB).1 ++ (match m.res with
+        | none => []
+        | some r => [.create (resultsPath m.key), .write (resultsPath m.key) (.full (.results r))]))
+      ++ [.unlink (pendingPath m.key)]) = fsF
+  have hF' : fsF = apply (applyAll (applyAll fsB (storeFresh m fsB).1) (match m.res with
+        | none => []
+        | some r => [.create (resultsPath m.key), .write (resultsPath m.key) (.full (.results r))]))
+        (.unlink (pendingPath m.key)) := by
+    rw [← hF, ← hfsB]
+    simp [applyAll, List.foldl_append]
+  generalize hmk : mkdirP fsB dbRoot [.s ".datasets", .s ".hash", .s m.dh] = mk at *
+  have hmkget : ∀ p, p ≠ datasetsDir → p ≠ datasetsDir ++ [.s ".hash"] → p ≠ hashDir m.dh →
+      get (applyAll fsB mk) p = get fsB p := by
+    intro p a1 a2 a3
+    rw [← hmk]
+    apply get_mkdirP_file
+    intro q hq
+    simp only [ancestors, List.mem_cons, List.not_mem_nil, or_false] at hq
+    rcases hq with rfl | rfl | rfl
+    · exact fun h => a1 h.symm
+    · exact fun h => a2 (by simpa [datasetsDir] using h.symm)
+    · exact fun h => a3 (by simpa [hashDir, datasetsDir] using h.symm)
+  -- state after the model-store part
+  have hS : ∀ p, get (applyAll fsB (storeFresh m fsB).1) p =
+      if modelPath m.key m.ext = p then some (.file (.full (.model m.code (some N))))
+      else if datasetsDir ++ [.dinfo N] = p then some (.file (.full (.dinfo m.di N)))
+      else if datasetsDir ++ [.csv N] = p then some (.file (.full (.csv m.dh)))
+      else if hashDir m.dh ++ [.csv N] = p then some (.file (.text []))
+      else get (applyAll fsB mk) p := by
+    intro p
+    simp only [storeFresh, hN, hmk, writeModel, applyAll, List.foldl_append, List.foldl_cons, List.foldl_nil, apply,
+      get_cons_eq]
+    by_cases c1 : modelPath m.key m.ext = p <;> by_cases c2 : datasetsDir ++ [Seg.dinfo N] = p <;>
+      by_cases c3 : datasetsDir ++ [Seg.csv N] = p <;> by_cases c4 : hashDir m.dh ++ [Seg.csv N] = p <;>
+      simp [c1, c2, c3, c4]
+  have hfin : ∀ p, p ≠ pendingPath m.key → p ≠ resultsPath m.key →
+      get fsF p = get (applyAll fsB (storeFresh m fsB).1) p := by
+    intro p a1 a2
+    have n1 : ¬ pendingPath m.key = p := fun h => a1 h.symm
+    have n2 : ¬ resultsPath m.key = p := fun h => a2 h.symm
+    rw [hF']
+    simp only [apply, get_filter_eq, if_neg n1]
+    cases m.res with
+    | none => simp [applyAll]
+    | some r =>
+      simp only [applyAll, List.foldl_cons, List.foldl_nil, apply, get_cons_eq, if_neg n2]
+  have hPF : pexists fsF (pendingPath m.key) = false := by
+    rw [hF']; simp only [pexists, apply, get_filter_self]; rfl
+  have hRF : get fsF (resultsPath m.key) = match m.res with
+      | none => none
+      | some r => some (.file (.full (.results r))) := by
+    rw [hF']
+    have hne : pendingPath m.key ≠ resultsPath m.key := by simp [pendingPath, resultsPath]
+    simp only [apply, get_filter_eq, if_neg hne]
+    cases hres : m.res with
+    | none =>
+      have : applyAll (applyAll fsB (storeFresh m fsB).1) [] = applyAll fsB (storeFresh m fsB).1 := rfl
+      rw [this, hS]
+      have e1 : modelPath m.key m.ext ≠ resultsPath m.key := by simp [modelPath, resultsPath, metaDir, keyDir]
+      have e2 : datasetsDir ++ [.dinfo N] ≠ resultsPath m.key := by simp [datasetsDir, resultsPath, metaDir, keyDir, dbRoot]
+      have e3 : datasetsDir ++ [.csv N] ≠ resultsPath m.key := by simp [datasetsDir, resultsPath, metaDir, keyDir, dbRoot]
+      have e4 : hashDir m.dh ++ [.csv N] ≠ resultsPath m.key := by simp [hashDir, datasetsDir, resultsPath, metaDir, keyDir, dbRoot]
+      simp only [if_neg e1, if_neg e2, if_neg e3, if_neg e4]
+      rw [hmkget, hgB, hR hres]
+      all_goals simp [resultsPath, metaDir, keyDir, lockPath, pendingPath, datasetsDir, hashDir, dbRoot]
+      all_goals (intro h; exact absurd h hk)
+    | some r => simp [applyAll, apply, get_cons_self]
+  -- files the reader looks at
+  have hbase : ∀ p, p ≠ keyDir m.key → p ≠ metaDir m.key → p ≠ lockPath → p ≠ pendingPath m.key →
+      p ≠ datasetsDir → p ≠ datasetsDir ++ [.s ".hash"] → p ≠ hashDir m.dh →
+      get (applyAll fsB mk) p = get fs p := by
+    intro p a1 a2 a3 a4 a5 a6 a7
+    rw [hmkget p a5 a6 a7, hgB p a1 a2 a3 a4]
+  have hmod : ∀ e, get fsF (modelPath m.key e) =
+      if m.ext = e then some (.file (.full (.model m.code (some N)))) else get fs (modelPath m.key e) := by
+    intro e
+    rw [hfin _ (by simp [modelPath, pendingPath, metaDir, keyDir]) (by simp [modelPath, resultsPath, metaDir, keyDir]), hS]
+    by_cases he : m.ext = e
+    · simp [he]
+    · have c1 : ¬ modelPath m.key m.ext = modelPath m.key e := by simp [modelPath, he]
+      have c2 : ¬ datasetsDir ++ [Seg.dinfo N] = modelPath m.key e := by simp [modelPath, datasetsDir, keyDir, dbRoot]
+      have c3 : ¬ datasetsDir ++ [Seg.csv N] = modelPath m.key e := by simp [modelPath, datasetsDir, keyDir, dbRoot]
+      have c4 : ¬ hashDir m.dh ++ [Seg.csv N] = modelPath m.key e := by simp [modelPath, hashDir, datasetsDir, keyDir, dbRoot]
+      simp only [if_neg c1, if_neg c2, if_neg c3, if_neg c4, if_neg he]
+      apply hbase <;> simp [modelPath, keyDir, metaDir, lockPath, pendingPath, datasetsDir, hashDir, dbRoot]
+  have hcsv : get fsF (datasetsDir ++ [.csv N]) = some (.file (.full (.csv m.dh))) := by
+    rw [hfin _ (by simp [datasetsDir, pendingPath, metaDir, keyDir, dbRoot]) (by simp [datasetsDir, resultsPath, metaDir, keyDir, dbRoot]), hS]
+    have c1 : ¬ modelPath m.key m.ext = datasetsDir ++ [Seg.csv N] := by simp [modelPath, datasetsDir, keyDir, dbRoot]
+    have c2 : ¬ datasetsDir ++ [Seg.dinfo N] = datasetsDir ++ [Seg.csv N] := by simp
+    simp [if_neg c1, if_neg c2]
+  have hdi : get fsF (datasetsDir ++ [.dinfo N]) = some (.file (.full (.dinfo m.di N))) := by
+    rw [hfin _ (by simp [datasetsDir, pendingPath, metaDir, keyDir, dbRoot]) (by simp [datasetsDir, resultsPath, metaDir, keyDir, dbRoot]), hS]
+    have c1 : ¬ modelPath m.key m.ext = datasetsDir ++ [Seg.dinfo N] := by simp [modelPath, datasetsDir, keyDir, dbRoot]
+    simp [if_neg c1]
+  have hcsv' : read fsF (datasetsDir ++ [.csv N]) = some (.full (.csv m.dh)) := by simp only [read, hcsv]
+  have hdi' : read fsF (datasetsDir ++ [.dinfo N]) = some (.full (.dinfo m.di N)) := by simp only [read, hdi]
+  simp only [hPF, Bool.false_eq_true, if_false]
+  rcases hext with he | he
+  · -- model.ctl
+    have e1 : isFile fsF (modelPath m.key "mod") = false := by
+      have hne : ¬ m.ext = "mod" := by rw [he]; decide
+      simp only [isFile, hmod "mod", if_neg hne]
+      exact hM1
+    have e2 : isFile fsF (modelPath m.key "ctl") = true := by simp [isFile, hmod "ctl", he]
+    have e3 : read fsF (modelPath m.key "ctl") = some (.full (.model m.code (some N))) := by
+      simp [read, hmod "ctl", he]
+    simp only [readEntry, findModel, e1, e2, Bool.false_eq_true, if_false, if_true, e3, hcsv', hdi', parseDinfo]
+    rw [hRF]; cases hr : m.res <;> simp [MDesc.entry, hr, Except.map]
+  · -- model.mod
+    have e2 : isFile fsF (modelPath m.key "mod") = true := by simp [isFile, hmod "mod", he]
+    have e3 : read fsF (modelPath m.key "mod") = some (.full (.model m.code (some N))) := by
+      simp [read, hmod "mod", he]
+    simp only [readEntry, findModel, e2, if_true, e3, hcsv', hdi', parseDinfo]
+    rw [hRF]; cases hr : m.res <;> simp [MDesc.entry, hr, Except.map]
+
+end Pharmpy.C16
